@@ -122,8 +122,26 @@ def rt(ctx, tier_override=None, tag="rt", extra=()):
         return None
     stats = json.load(open(os.path.join(out_dir, "stats.json")))
     res = {"stats": stats, "out_dir": out_dir}
-    # 1. round trip
-    n, diffs = common.diff_lines(os.path.join(out_dir, "rt_expected.txt"), os.path.join(out_dir, "rt_impl.txt"), limit=100000)
+    # 1. round trip: the two canonical trees of every case are compared by the extracted, verified comparator
+    # ast_eqb (coq/theories/Front/AstEq.v, theorem ast_eqb_eq); the textual comparison is only used to
+    # cross-check the glue (s-expression reader of the driver)
+    exp_l = common.read_lines(os.path.join(out_dir, "rt_expected.txt"))
+    imp_l = common.read_lines(os.path.join(out_dir, "rt_impl.txt"))
+    with open(os.path.join(out_dir, "rt_eq_in.txt"), "w") as f:
+        for a, b in zip(exp_l, imp_l):
+            f.write("E %s\t%s\n" % (a.replace("\t", " "), b.replace("\t", " ")))
+    eq_ok = ctx.run_model(model, os.path.join(out_dir, "rt_eq_in.txt"), os.path.join(out_dir, "rt_eq_out.txt"))
+    verdicts = common.read_lines(os.path.join(out_dir, "rt_eq_out.txt")) if eq_ok else []
+    n = max(len(exp_l), len(imp_l))
+    if eq_ok and len(verdicts) == len(exp_l) == len(imp_l):
+        diffs = [(i, exp_l[i], imp_l[i]) for i, v in enumerate(verdicts) if v != "eq"]
+        res["rt_comparator"] = "ast_eqb"
+        textual = sum(1 for a, b in zip(exp_l, imp_l) if a != b)
+        res["rt_comparator_agrees_with_text"] = (textual == len(diffs))
+    else:
+        _, diffs = common.diff_lines(os.path.join(out_dir, "rt_expected.txt"), os.path.join(out_dir, "rt_impl.txt"), limit=100000)
+        res["rt_comparator"] = "text (extracted comparator could not run)"
+        res["rt_comparator_agrees_with_text"] = False
     fails = [json.loads(l) for l in common.read_lines(os.path.join(out_dir, "rt_fail.jsonl")) if l.strip()]
     res["rt_n"], res["rt_diffs"], res["rt_fails"] = n, diffs, fails
     # 2. + 3. validators
@@ -157,14 +175,21 @@ def report_rt(ctx, res, record=True):
     n, diffs, fails = res["rt_n"], res["rt_diffs"], res["rt_fails"]
     if record:
         ctx.obligations.append(common.Obligation(
-            "correspondence:roundtrip", "correspondence", n > 0 and not diffs,
-            "%d (program, style) cases over %d generated programs (size <= %d, 4 styles), %d disagreements"
-            % (n, stats["programs"], stats["max_size"], len(diffs))))
+            "correspondence:roundtrip", "correspondence", n > 0 and not diffs and res.get("rt_comparator") == "ast_eqb" and res.get("rt_comparator_agrees_with_text"),
+            "%d (program, style) cases: EXHAUSTIVE family %d programs / %d cases (%d disagreements), %d random programs (size <= %d), %d corpus cases; 4 styles; %d disagreements in total"
+            % (n, stats.get("exhaustive_programs", 0), stats.get("exhaustive_cases", 0), stats.get("exhaustive_mismatch", 0),
+               stats["programs"], stats["max_size"], stats.get("corpus_cases", 0), len(diffs))))
+        if stats.get("exhaustive_programs", 0):
+            ctx.coverage["exhaustive"] = True
+            ctx.coverage["exhaustive_bound"] = (ctx.coverage.get("exhaustive_bound", "") + "; round trip: " + stats["exhaustive_bound"]).lstrip("; ")
         ctx.coverage["evaluations"] = ctx.coverage.get("evaluations", 0) + stats["evaluations"]
         ctx.coverage["distinct_nontrivial"] = ctx.coverage.get("distinct_nontrivial", 0) + stats["distinct_nontrivial"]
         ctx.coverage["traces_validated_against_impl"] = ctx.coverage.get("traces_validated_against_impl", 0) + n + res["span_n"] + res["lay_n"]
         ctx.coverage.setdefault("ties", {})["roundtrip"] = {
             "cases": n, "programs": stats["programs"], "max_size": stats["max_size"], "disagreements": len(diffs),
+            "comparator": res.get("rt_comparator"), "comparator_agrees_with_textual_comparison": res.get("rt_comparator_agrees_with_text"),
+            "exhaustive": {"programs": stats.get("exhaustive_programs", 0), "cases": stats.get("exhaustive_cases", 0),
+                           "disagreements": stats.get("exhaustive_mismatch", 0), "bound": stats.get("exhaustive_bound", "")},
             "distinct_nontrivial": stats["distinct_nontrivial"], "rule": stats["rule"], "input_distribution": stats["hist"]}
         cases = common.read_lines(os.path.join(res["out_dir"], "rt_cases.txt"))
         exp = common.read_lines(os.path.join(res["out_dir"], "rt_expected.txt"))
